@@ -53,9 +53,9 @@ def truth(case):
     return truth_h2(case["plan"], "t0", m) if case["proto"] == "h2" else truth_h1(case["plan"], "t0", m)
 
 
-def run(case, *, cuts=None, seg=None, truncate=None, sync=True, second=False, api="stream"):
+def run(case, *, cuts=None, seg=None, truncate=None, sync=True, second=False, api="stream", faults=None):
     cfg = net_for(case)
-    world = World(peer_factory=cfg.peer_factory, cuts={0: cuts} if cuts else None, seg=seg)
+    world = World(peer_factory=cfg.peer_factory, cuts={0: cuts} if cuts else None, seg=seg, faults=faults)
     if truncate is not None:
         world.truncate[0] = truncate
     pool = build_pool(world, pool_cfg(case), sync=sync)
@@ -252,6 +252,28 @@ def execute(case) -> Outcome:
         if vio:
             break
 
+    # ---- (f) the transport FAILS (a reset: the backend raises ReadError) at each read of the exchange: a read that was needed did not deliver, so
+    #      the message cannot be complete - the caller must get an error whatever the framing (also close-delimited: a reset is not an end of stream)
+    if not vio:
+        n_reads = sum(1 for op in ref_world.trace if op["kind"] == "read" and op.get("pipe") == 0 and op["seq"] <= (ex0.get("done_seq") or 1 << 60))
+        first_reads = [op for op in ref_world.trace if op["kind"] == "read" and op.get("pipe") == 0]
+        # only the reads of the FIRST exchange: those issued before the second request was written
+        second_start = next((e["head_seq"] for e in leaf.all_exchanges()[1:2]), None)
+        ks = [op["kind_index"] for op in first_reads if second_start is None or op["seq"] < second_start]
+        for k in ks[:40]:
+            for sync in (True, False):
+                _, o, _ = run(case, sync=sync, api="request", faults=[{"kind": "read", "kind_index": k, "fault": "ReadError"}])
+                metrics["executions"] += 1
+                metrics["reset_runs"] = metrics.get("reset_runs", 0) + 1
+                if o["exc"] is None:
+                    add("read-error-swallowed", f"the transport raised ReadError (connection reset) at read #{k} of the exchange [{'sync' if sync else 'async'}] but the caller "
+                        f"got status {o['status']} and a body of {len(o['body'])} bytes without an error (the server sent {len(tr['body'])} bytes)", "reset")
+                elif o["exc"]["type"] == "HANG":
+                    add("reset-hang", f"ReadError at read #{k}: {o['exc']['msg']}", "reset")
+            if vio:
+                break
+        tags.append("transport-reset-sweep")
+
     # ---- (e) HTTP/2: the stream is reset (RST_STREAM with every error code class, NO_ERROR included) after each prefix of the
     #      response's frames: an error unless the response was already complete (END_STREAM sent)
     if case["proto"] == "h2" and not vio:
@@ -324,7 +346,8 @@ RULE = ("A case is one generated well-formed response (HTTP/1.1: status, reason,
         "split at EVERY single position (responses <= 1200 wire bytes; bigger ones: all structural offsets + a grid), at drawn "
         "multi-cut sets and segment-size sequences, and truncated at EVERY position followed by EOF; sync and async. HTTP/2 responses are "
         "additionally reset (RST_STREAM with 9 error codes incl. NO_ERROR) after every prefix of their frames (all prefixes up to 10 frames, "
-        "else the first four, the middle and the last four): an error unless END_STREAM had been sent. "
+        "else the first four, the middle and the last four): an error unless END_STREAM had been sent. Every response (all framings, close-delimited "
+        "included) is also run with the transport raising ReadError (a connection reset) at each read of the exchange: an error is required. "
         "Non-trivial: the case included cuts strictly inside a CRLF pair / chunk-size line / 9-byte frame header and truncation "
         "points; distinct = distinct generated response. coverage.metrics.executions counts the individual runs.")
 
